@@ -28,13 +28,13 @@ def parse_nwchem(nwchem_basis_file):
     """
     # pylint: disable=R0914
     with open(nwchem_basis_file, "r") as basis_fh:
-        nwchem_basis = basis_fh.read()
+        # start with a newline so that a shell header on the very first line is recognized as well
+        nwchem_basis = "\n" + basis_fh.read()
 
     data = re.split(r"\n\s*(\w[\w]?)[ ]+(\w+)\s*\n", nwchem_basis)
     dict_angmom = {"s": 0, "p": 1, "d": 2, "f": 3, "g": 4, "h": 5, "i": 6, "k": 7}
-    # remove first part
-    if "\n" in data[0]:  # pragma: no branch
-        data = data[1:]
+    # remove first part (everything before the first shell header)
+    data = data[1:]
     atoms = data[::3]
     angmoms = data[1::3]
     exps_coeffs_all = data[2::3]
